@@ -3,9 +3,5 @@ CONSTANTS
   Lookups = {q1, q2, q3}
   KeepSome = FALSE
   MaxVotes = 3
-INVARIANT TypeOK
-INVARIANT C18_ClearedOnlyIfReachable
-INVARIANT C18_RecordedUnreachableIsFirewalled
 INVARIANT C18_ConfirmsWhenReachable
-PROPERTY C18_NewAddressIsPinged
 CHECK_DEADLOCK FALSE
